@@ -2,6 +2,7 @@
 package main
 
 import (
+	"context"
 	"encoding/json"
 	"fmt"
 	"io"
@@ -10,6 +11,7 @@ import (
 	"math/rand"
 	"os"
 	"strings"
+	"sync"
 
 	"perkeep.org/pkg/blob"
 	"perkeep.org/pkg/blobserver"
@@ -58,6 +60,16 @@ func singles(thorough bool) []*sto.Spec {
 		sp("proxycache", map[string]any{"cacheBytes": 300}, mem()),
 		sp("proxycache", map[string]any{"cacheBytes": 1 << 20}, mem()),
 		sp("union", nil, mem(), mem(), mem()),
+		// own state in an on-disk KV: re-created over it by the reopen step
+		sp("blobpacked", map[string]any{"meta": "leveldb"}, mem(), sp("localdisk", nil)),
+		sp("overlay", map[string]any{"deleted": "leveldb"}, sp("localdisk", nil), mem()),
+		// read-only parts below the root, filled by the nested preload
+		sp("replica", nil, sp("overlay", nil, mem(), mem()), mem()),
+		sp("overlay", map[string]any{"deleted": "kv"}, sp("union", nil, mem(), sp("localdisk", nil)), mem()),
+		sp("proxycache", map[string]any{"cacheBytes": 300}, sp("overlay", nil, sp("union", nil, mem(), mem()), mem())),
+		sp("union", nil, sp("overlay", nil, mem(), mem()), sp("shard", nil, mem(), mem()), sp("diskpacked", map[string]any{"maxFileSize": 200, "meta": "leveldb"})),
+		// distinct read set below another store
+		sp("proxycache", map[string]any{"cacheBytes": 5000}, sp("replica", map[string]any{"readFirst": 1}, mem(), sp("localdisk", nil), mem())),
 	}
 	if thorough {
 		for _, meta := range []string{"memory", "leveldb", "kv", "sqlite"} {
@@ -66,13 +78,11 @@ func singles(thorough bool) []*sto.Spec {
 			}
 		}
 		out = append(out,
-			sp("blobpacked", map[string]any{"meta": "leveldb"}, mem(), sp("localdisk", nil)),
 			sp("blobpacked", map[string]any{"meta": "kv"}, sp("localdisk", nil), sp("diskpacked", map[string]any{"meta": "leveldb"})),
 			sp("encrypt", map[string]any{"meta": "leveldb"}, sp("localdisk", nil), mem()),
 			sp("replica", nil, mem()),
 			sp("shard", nil, mem()),
 			sp("shard", nil, sp("localdisk", nil), mem()),
-			sp("overlay", map[string]any{"deleted": "leveldb"}, sp("localdisk", nil), mem()),
 			sp("namespace", map[string]any{"inventory": "kv"}, sp("localdisk", nil)),
 			sp("union", nil, mem()),
 			sp("union", nil, sp("localdisk", nil), mem()),
@@ -84,7 +94,9 @@ func singles(thorough bool) []*sto.Spec {
 }
 
 // composition returns a seeded tree of depth <= 3.
-func composition(rng *rand.Rand, depth int) *sto.Spec {
+func composition(rng *rand.Rand, depth int) *sto.Spec { return comp(rng, depth, true) }
+
+func comp(rng *rand.Rand, depth int, root bool) *sto.Spec {
 	leaf := func() *sto.Spec {
 		switch rng.Intn(6) {
 		case 0:
@@ -102,16 +114,27 @@ func composition(rng *rand.Rand, depth int) *sto.Spec {
 		if rng.Intn(3) == 0 {
 			return leaf()
 		}
-		return composition(rng, depth-1)
+		return comp(rng, depth-1, false)
 	}
-	switch rng.Intn(9) {
+	kv := func(key string) map[string]any {
+		if k := []string{"", "", "leveldb", "kv"}[rng.Intn(4)]; k != "" {
+			return map[string]any{key: k}
+		}
+		return nil
+	}
+	switch rng.Intn(10) {
 	case 0:
 		n := 2 + rng.Intn(2)
 		kids := make([]*sto.Spec, n)
 		for i := range kids {
 			kids[i] = kid()
 		}
-		return sp("replica", nil, kids...)
+		var p map[string]any
+		if rng.Intn(3) == 0 {
+			// read set = the first k backends (every backend holds every blob: minWrites = all)
+			p = map[string]any{"readFirst": 1 + rng.Intn(n)}
+		}
+		return sp("replica", p, kids...)
 	case 1:
 		n := 1 + rng.Intn(3)
 		kids := make([]*sto.Spec, n)
@@ -122,7 +145,19 @@ func composition(rng *rand.Rand, depth int) *sto.Spec {
 	case 2:
 		return sp("cond", nil, kid(), mem())
 	case 3:
-		return sp("overlay", nil, mem(), kid())
+		// the lower layer is pre-populated and never written: a leaf, a read-only union or a whole tree
+		var lower *sto.Spec
+		switch rng.Intn(5) {
+		case 0:
+			lower = leaf()
+		case 1:
+			lower = sp("union", nil, leaf(), leaf())
+		case 2:
+			lower = kid()
+		default:
+			lower = mem()
+		}
+		return sp("overlay", kv("deleted"), lower, kid())
 	case 4:
 		return sp("namespace", map[string]any{"sibling": []string{"yes", "no"}[rng.Intn(2)]}, kid())
 	case 5:
@@ -131,7 +166,18 @@ func composition(rng *rand.Rand, depth int) *sto.Spec {
 		return sp("encrypt", nil, kid(), mem())
 	case 7:
 		// blobpacked needs a SubFetch-capable large store: use leaves
-		return sp("blobpacked", nil, kid(), leafSub(rng))
+		return sp("blobpacked", kv("meta"), kid(), leafSub(rng))
+	case 8:
+		if root {
+			// read-only union over whole trees (filled through the subsets)
+			n := 1 + rng.Intn(3)
+			kids := make([]*sto.Spec, n)
+			for i := range kids {
+				kids[i] = kid()
+			}
+			return sp("union", nil, kids...)
+		}
+		return kid()
 	default:
 		return kid()
 	}
@@ -201,7 +247,7 @@ func hasKind(s *sto.Spec, kind string) bool {
 
 func main() {
 	ev.Main("C01", "exploration",
-		"seeded operation histories (receive/fetch/subfetch/stat/enumerate/remove/reopen, 40-200 ops) over every backend and seeded compositions, each result compared with a reference map and a full audit every 8 ops; distinct = (backend spec, history hash); non-trivial = history contains >=1 remove or refusal, >=1 re-receive and >=3 enumerations",
+		"seeded operation histories (receive/fetch/subfetch/stat/enumerate/remove/reopen, 40-200 ops) over every backend and seeded compositions (incl. overlay/union below the root filled by a nested preload, replicas with a distinct read set holding hidden blobs in a write-only backend, sibling namespaces judged by a second reference map, re-creation of composite trees), each result compared with a reference map and a full audit every 8 ops; universes always hold the 0-byte blob and, in one history per backend / every second history of a tree containing cond, blobs above schema.MaxSchemaBlobSize+1 up to the 16 MiB cap; ranged fetches include the documented boundaries (offset == size, length 0, the empty blob, off+len beyond the blob and beyond int64) on every SubFetch-capable root; distinct = (backend spec, history hash); non-trivial = history contains >=1 remove or refusal, >=1 re-receive and >=3 enumerations",
 		run)
 }
 
@@ -209,6 +255,7 @@ func run(r *ev.Run) {
 	log.SetOutput(io.Discard)
 	r.Assume("reference model = Go map from blobref to bytes, written from the property statement")
 	r.Assume("stores that document a refusal of remove/receive (encrypt, union, cond without remove) are modelled as refusing without state change")
+	r.Assume("blob.SubFetcher documents ErrOutOfRangeOffsetSubFetch only for an offset that goes over the blob's size: offset == size and length == 0 are valid empty ranges of a present blob")
 	root := ev.Scratch("c01")
 	defer os.RemoveAll(root)
 
@@ -225,6 +272,13 @@ func run(r *ev.Run) {
 	for i := 0; i < r.Pick(40, 300); i++ {
 		jobs = append(jobs, job{composition(crng, 3), r.Pick(2, 2), false})
 	}
+	// histories are independent (own scratch dir, own PRNG stream keyed by case): a small pool runs them
+	type hcase struct {
+		id string
+		j  job
+		h  int
+	}
+	var cases []hcase
 	caseNo := 0
 	for _, j := range jobs {
 		for h := 0; h < j.n; h++ {
@@ -233,12 +287,39 @@ func run(r *ev.Run) {
 			if !r.Only(id + ";") {
 				continue
 			}
-			runHistory(r, root, id, j.spec, j.single, h)
+			cases = append(cases, hcase{id, j, h})
+		}
+	}
+	samples := make([]*caseRec, len(cases))
+	var wg sync.WaitGroup
+	next := make(chan int)
+	for w := 0; w < 6; w++ {
+		wg.Add(1)
+		go func() {
+			defer wg.Done()
+			for i := range next {
+				hc := cases[i]
+				r.Guard("history", caseRec{CaseID: hc.id + ";", Backend: hc.j.spec.String()}, func() {
+					samples[i] = runHistory(r, root, hc.id, hc.j.spec, hc.j.single, hc.h)
+				})
+			}
+		}()
+	}
+	for i := range cases {
+		next <- i
+	}
+	close(next)
+	wg.Wait()
+	for _, sm := range samples {
+		if sm != nil {
+			r.Sample(*sm)
 		}
 	}
 	r.Require("backend_kinds", "memory", "localdisk", "diskpacked", "blobpacked", "encrypt", "replica", "shard", "cond", "overlay", "namespace", "proxycache", "union")
 	r.Require("events", "pack-rollover", "zip-packed", "reopen", "remove", "re-receive", "refused-remove",
-		"big-blob-received", "big-blob-through-cond")
+		"big-blob-received", "big-blob-through-cond", "stat-batch>=60", "sibling-namespace-audited", "hidden-in-non-read-replica",
+		"preloaded-tree-with-nested-overlay", "preloaded-tree-with-nested-union")
+	r.Require("reopened_kinds", "localdisk", "diskpacked", "encrypt", "blobpacked", "overlay", "replica", "shard", "cond", "proxycache", "union")
 	// every root kind that implements blob.SubFetcher saw the documented boundary ranges on present blobs
 	for _, kind := range []string{"memory", "localdisk", "diskpacked", "blobpacked", "proxycache"} {
 		for _, cat := range []string{"off==size", "len==0", "empty-blob", "clipped", "off>size", "huge-length"} {
@@ -247,7 +328,7 @@ func run(r *ev.Run) {
 	}
 }
 
-func runHistory(r *ev.Run, root, id string, spec *sto.Spec, single bool, h int) {
+func runHistory(r *ev.Run, root, id string, spec *sto.Spec, single bool, h int) (sample *caseRec) {
 	rng := r.Rand(fmt.Sprintf("history/%s/%s/%d", id, spec, h))
 	dir, err := os.MkdirTemp(root, "h")
 	if err != nil {
@@ -255,7 +336,7 @@ func runHistory(r *ev.Run, root, id string, spec *sto.Spec, single bool, h int) 
 		return
 	}
 	defer os.RemoveAll(dir)
-	env := &sto.Env{Dir: dir}
+	env := &sto.Env{Dir: dir, NestedPreload: true, DeepReopen: true}
 	b, err := sto.Build(env, spec)
 	if err != nil {
 		r.Inconclusive(fmt.Sprintf("cannot build %s: %v", spec, err))
@@ -291,12 +372,47 @@ func runHistory(r *ev.Run, root, id string, spec *sto.Spec, single bool, h int) 
 		rec.Blobs = append(rec.Blobs, u.String())
 	}
 	reported := 0
+	lastRecvSize := -1 // size of the blob of the receive in progress
+	once := map[string]bool{}
 	report := func(sig, what string) {
-		reported++
+		// Two narrow classes get their own signature, are reported once per history and do not count
+		// towards the "stop after 5 reports" limit (they would otherwise end every history of the
+		// affected backends early): ranged fetches whose off+len overflows int64, and a receive of a
+		// blob within 8 KiB of the 16 MiB cap refused by a tree that contains an encrypt store (the
+		// ciphertext of such a blob exceeds the cap of the store below).
+		narrow := strings.HasPrefix(sig, "range-overflow/")
+		if strings.HasPrefix(sig, "op-error/") && strings.HasSuffix(sig, ".receive") &&
+			lastRecvSize > blobserver.MaxBlobSize-8192 && hasKind(spec, "encrypt") {
+			sig = "near-cap-refused/" + label + ".receive"
+			narrow = true
+		}
+		if narrow {
+			if once[sig] {
+				return
+			}
+			once[sig] = true
+		} else {
+			reported++
+		}
 		r.Violation(sig, fmt.Sprintf("[%s] %s (after %d ops)", spec, what, len(rec.Ops)), rec)
 	}
 	c := sto.NewChecker(b.S, label, b.Caps, universe, report)
 	c.StrictRange = true
+	// ghosts: never received, only used to pad stat batches beyond every stat gate (50)
+	ghosts := make([]sto.Blob, 64)
+	for i := range ghosts {
+		ghosts[i] = sto.FromBytes([]byte(fmt.Sprintf("ghost-%d-%d", i, rng.Int63())))
+	}
+	// a sibling namespace over the same master is a map of its own: second checker, overlapping universe
+	var sib *sto.Checker
+	if len(b.Siblings) > 0 {
+		su := append(append([]sto.Blob{}, sto.SiblingBlobs()...), universe...)
+		sib = sto.NewChecker(b.Siblings[0], "namespace-sibling", sto.Caps{Receive: true, Remove: true}, su, report)
+		for _, x := range sto.SiblingBlobs() {
+			sib.Present[x.Ref] = x.Data
+		}
+		r.Note("events", "sibling-namespace-audited")
+	}
 
 	// read-only parts are pre-populated directly
 	var preloaded []sto.Blob
@@ -311,8 +427,29 @@ func runHistory(r *ev.Run, root, id string, spec *sto.Spec, single bool, h int) 
 			c.Present[p.Ref] = p.Data
 		}
 		rec.Ops = append(rec.Ops, opRec{Op: "preload", Arg: fmt.Sprintf("first %d universe blobs", k)})
+		for _, kind := range []string{"overlay", "union"} {
+			if spec.Kind != kind && hasKind(spec, kind) {
+				r.Note("events", "preloaded-tree-with-nested-"+kind)
+			}
+		}
 	}
 
+	// blobs stored behind the tree's back where it must not show them (write-only replica backend):
+	// they stay absent in the reference map until received through the tree
+	if b.Hidden != nil {
+		var hid []sto.Blob
+		for i := len(universe) - 1; i >= 0 && len(hid) < 4; i-- {
+			if _, p := c.Present[universe[i].Ref]; !p && len(universe[i].Data) <= sto.SchemaCap {
+				hid = append(hid, universe[i])
+			}
+		}
+		if err := b.Hidden(hid); err != nil {
+			r.Inconclusive(fmt.Sprintf("hide %s: %v", spec, err))
+			return
+		}
+		rec.Ops = append(rec.Ops, opRec{Op: "hide-in-write-only-replica-backend", Arg: fmt.Sprintf("%d blobs, last universe members", len(hid))})
+		r.Note("events", "hidden-in-non-read-replica")
+	}
 	nops := 40 + rng.Intn(r.Pick(60, 160))
 	if big {
 		nops = 40 + rng.Intn(40)
@@ -332,7 +469,7 @@ func runHistory(r *ev.Run, root, id string, spec *sto.Spec, single bool, h int) 
 			log("receive", fb.String(), "file-part")
 			c.Receive(fb)
 			if fileNext == len(fileBlobs) {
-				r.Note("events", "zip-packed")
+				r.Note("events", "file-delivered")
 			}
 		case k < 30:
 			bl := pick()
@@ -345,7 +482,9 @@ func runHistory(r *ev.Run, root, id string, spec *sto.Spec, single bool, h int) 
 			if _, dup := c.Present[bl.Ref]; dup {
 				r.Note("events", "duplicate-receive")
 			}
+			lastRecvSize = len(bl.Data)
 			c.Receive(bl)
+			lastRecvSize = -1
 			if len(bl.Data) > sto.SchemaCap+1 && c.LastErr() == nil {
 				r.Count("big_blob_receives", 1)
 				r.Note("events", "big-blob-received")
@@ -374,14 +513,23 @@ func runHistory(r *ev.Run, root, id string, spec *sto.Spec, single bool, h int) 
 			log("subfetch", bl.String(), fmt.Sprintf("%d+%d", off, ln))
 			c.SubFetch(bl, off, ln)
 		case k < 62:
-			n := []int{1, 2, 7, len(universe)}[rng.Intn(4)]
+			n := []int{1, 2, 7, len(universe), -1}[rng.Intn(5)]
 			perm := rng.Perm(len(universe))
 			if n > len(perm) {
 				n = len(perm)
 			}
-			bs := make([]sto.Blob, n)
-			for i := range bs {
-				bs[i] = universe[perm[i]]
+			var bs []sto.Blob
+			if n < 0 {
+				// wide batch: the whole universe padded with absent refs, shuffled (> every stat gate)
+				bs = append(append(bs, universe...), ghosts...)
+				rng.Shuffle(len(bs), func(i, j int) { bs[i], bs[j] = bs[j], bs[i] })
+				r.Note("events", "stat-batch>=60")
+				n = len(bs)
+			} else {
+				bs = make([]sto.Blob, n)
+				for i := range bs {
+					bs[i] = universe[perm[i]]
+				}
 			}
 			log("stat", fmt.Sprintf("%d refs starting %s", n, bs[0].Ref), "")
 			c.Stat(bs)
@@ -430,19 +578,54 @@ func runHistory(r *ev.Run, root, id string, spec *sto.Spec, single bool, h int) 
 			}
 			c.S = ns
 			r.Note("events", "reopen")
+			r.Note("reopened_kinds", spec.Kind)
 		default:
 			log("audit", "", "")
 			c.Audit(rng, false)
 		}
+		if sib != nil && rng.Intn(4) == 0 {
+			// the sibling receives / removes / reads blobs of the same universe; neither namespace may see the other's
+			bl := pick()
+			switch rng.Intn(4) {
+			case 0, 1:
+				log("sibling-receive", bl.String(), "")
+				sib.Receive(bl)
+			case 2:
+				log("sibling-remove", bl.String(), "")
+				sib.Remove([]sto.Blob{bl})
+			default:
+				log("sibling-fetch", bl.String(), "")
+				sib.Fetch(bl)
+			}
+		}
 		if i%8 == 7 {
 			log("audit", "", "")
 			c.Audit(rng, false)
+			if sib != nil && i%16 == 15 {
+				log("sibling-audit", "", "")
+				sib.Audit(rng, false)
+			}
 		}
 	}
 	if !c.Dead && reported < 5 {
 		log("audit-full", "", "")
 		c.Audit(rng, true)
 		nEnum += 3
+		if sib != nil && !sib.Dead {
+			log("sibling-audit", "", "")
+			sib.Audit(rng, false)
+		}
+	}
+	if sib != nil {
+		r.Eval(sib.Evals)
+	}
+	// packing is observed, not assumed: a large store of the tree lists at least one zip
+	for _, lg := range b.Larges {
+		if storeHasBlob(lg) {
+			r.Note("events", "zip-packed")
+			r.Count("histories_with_zip_in_large", 1)
+			break
+		}
 	}
 	// observed structure
 	if hasKind(spec, "diskpacked") {
@@ -473,8 +656,22 @@ func runHistory(r *ev.Run, root, id string, spec *sto.Spec, single bool, h int) 
 		if len(s.Blobs) > 4 {
 			s.Blobs = s.Blobs[:4]
 		}
-		r.Sample(s)
+		sample = &s
 	}
+	return sample
+}
+
+// storeHasBlob reports whether s enumerates at least one blob.
+func storeHasBlob(s blobserver.Storage) bool {
+	ch := make(chan blob.SizedRef, 1)
+	errc := make(chan error, 1)
+	go func() { errc <- s.EnumerateBlobs(context.Background(), ch, "", 1) }()
+	n := 0
+	for range ch {
+		n++
+	}
+	<-errc
+	return n > 0
 }
 
 func markKinds(r *ev.Run, s *sto.Spec) {
